@@ -303,8 +303,8 @@ fn check_taiko(run: &mut Run, id: &str, bytes: &[u8], mods: u32, rate: Option<f6
         run.fail("oracle:pipe-taiko-max-combo", "", id, format!("max_combo {} for {hits} hits, take {take:?}", attrs.max_combo), repro.clone());
     }
     // gradual values: every native taiko file (since the repair /repo ea9de37 the gradual calculator
-    // agrees with the one-shot path for every object list); only the final-vs-full comparison
-    // needs "the last object is a hit" (recorded finding taiko-gradual-trailing-nonhit)
+    // agrees with the one-shot path for every object list; since the fix of the trailing drum rolls /
+    // swells the last value is the full calculation whatever the last object is)
     let regular = take.is_none();
     let last_is_hit = n > 0 && map.hit_objects[n - 1].is_circle();
     let mut gtail = String::new();
@@ -325,7 +325,7 @@ fn check_taiko(run: &mut Run, id: &str, bytes: &[u8], mods: u32, rate: Option<f6
             if !last_is_hit {
                 run.count("tpipe:gradual:last-object-not-a-hit");
             }
-            if let Some(last) = vals.last().filter(|_| last_is_hit) {
+            if let Some(last) = vals.last() {
                 if *last != attrs {
                     run.fail("oracle:pipe-taiko-gradual-last-vs-full", "", id, format!("{last:?} vs {attrs:?}"), repro.clone());
                 }
